@@ -69,6 +69,7 @@ mutual
     | .left v _, h => by simp only [Val.wt] at h; simp [Val.consistent, wt_consistent v h]
     | .right _ v, h => by simp only [Val.wt] at h; simp [Val.consistent, wt_consistent v h]
     | .set _ xs, h => by simp only [Val.wt, Bool.and_eq_true] at h; simp [Val.consistent, h.1]
+    | .lam _ _ _, _ => rfl
   theorem wtList_consistent : ∀ (t : Ty) (xs : List Val), Val.wtList t xs = true → Val.consistentList t xs = true
     | _, [], _ => rfl
     | t, x :: xs, h => by
